@@ -456,12 +456,55 @@ func c07LocalZone(c *fw.Ctx, zi int, safe bool) {
 	c.Outcome("zone:" + c07Zones[zi])
 }
 
+// ---- strings that collide under the usual hash functions, converted one after the other on ONE manager:
+// the second conversion must give what a fresh manager gives (and what the text says)
+
+func c07Twins(c *fw.Ctx, i int64) {
+	tw := digitTwins()
+	if len(tw) == 0 {
+		c.Outcome("no-twins")
+		return
+	}
+	safe := i%2 == 1
+	i /= 2
+	targets := []variants.VariantType{variants.Integer, variants.Long, variants.Float, variants.Double}
+	to := targets[int(i)%len(targets)]
+	i /= int64(len(targets))
+	swap := i%2 == 1
+	p := tw[int(i/2)%len(tw)]
+	a, b := p.a, p.b
+	if swap {
+		a, b = b, a
+	}
+	m := opsManager(safe)
+	fresh := opsManager(safe)
+	var r1, r2, f2 *variants.Variant
+	var e1, e2, fe2 error
+	pv := fw.Try(func() {
+		r1, e1 = m.Convert(variants.VariantFromString(a), to)
+		r2, e2 = m.Convert(variants.VariantFromString(b), to)
+		f2, fe2 = fresh.Convert(variants.VariantFromString(b), to)
+	})
+	c.Eval(3)
+	_ = r1
+	_ = e1
+	if pv != nil {
+		c.Violation("convert-panics:"+mgrName(safe), "%s Convert of %q then %q to %s panics: %s", mgrName(safe), a, b, tn(to), panicShort(pv))
+		return
+	}
+	if outcomeStr(r2, e2, nil) != outcomeStr(f2, fe2, nil) {
+		c.Violation("conversion-depends-on-previous-conversion", "%s manager: Convert(%q, %s) right after Convert(%q, %s) gives %s, a fresh manager gives %s (the two texts have the same length and the same %s hash)", mgrName(safe), b, tn(to), a, tn(to), outcomeStr(r2, e2, nil), outcomeStr(f2, fe2, nil), p.hash)
+	}
+	c.Nontrivial()
+	c.Outcome("twins:" + p.hash)
+}
+
 func init() {
 	fw.Register(&fw.Check{
 		ID:    "C07",
 		Level: "model_checking",
 		Rule: "full matrix: every pool value (all variant types with boundaries) x all 11 target types x both managers against a reference conversion table (result type, payload where the table defines it, result XOR error, operand unchanged, type-safe whitelist, managers agree); " +
-			"plus the same matrix on a long-lived manager with a source object that was converted once and then changed in place (must equal a fresh object), and every conversion repeated after the caller overwrote the returned variant; plus Integer/Long <-> DateTime with the process's local zone set to four zones with daylight saving / odd offsets, for the seconds around (and inside the repeated or skipped hour of) every offset change of 2021; plus every two-step chain src->dst->src of the lossless table for every pool value inside the exact range; non-trivial = conversions to a different type / applicable chains",
+			"plus the same matrix on a long-lived manager with a source object that was converted once and then changed in place (must equal a fresh object), and every conversion repeated after the caller overwrote the returned variant; plus Integer/Long <-> DateTime with the process's local zone set to four zones with daylight saving / odd offsets, for the seconds around (and inside the repeated or skipped hour of) every offset change of 2021; plus pairs of equal-length numeric strings that collide under FNV-1/1a, CRC-32C or Adler-32 converted one after the other on one manager (must equal a fresh manager's answer); plus every two-step chain src->dst->src of the lossless table for every pool value inside the exact range; non-trivial = conversions to a different type / applicable chains",
 		Assume: []string{"string->number/date parsing and any->string formatting are done by the external commons converters (trusted base); their payloads are not predicted except Integer/Long/Boolean->String", "conversions the statement does not list may succeed or fail in the type-unsafe manager"},
 		Spaces: func(tier string) []fw.Space {
 			pool := valuePool("thorough")
@@ -486,6 +529,8 @@ func init() {
 					Repr: func(i int64) string {
 						return fmt.Sprintf("%s number <-> DateTime with time.Local = %s, seconds around every offset change of 2021", mgrName(i%2 == 1), c07Zones[i/2])
 					}},
+				{Name: "hash-twins", N: 5 * 2 * 4 * 2, Run: c07Twins,
+					Repr: func(i int64) string { return fmt.Sprintf("two equal-length numeric strings with one hash value converted one after the other (#%d)", i) }},
 				{Name: "chains", N: int64(len(pool) * len(chains)), Run: func(c *fw.Ctx, i int64) { c07ChainRun(c, pool, chains, i) },
 					Repr: func(i int64) string {
 						ch := chains[int(i)%len(chains)]
